@@ -15,16 +15,24 @@ for f in sorted(glob.glob('engine/props.d/*.json')): d.update(json.load(open(f))
 print(' '.join(sorted(d)))")
 fi
 for p in $props; do
-  cap=$(python3 -c "
+  qs=$(python3 -c "
 import json,glob
 d=json.load(open('engine/props.json'))
 for f in sorted(glob.glob('engine/props.d/*.json')): d.update(json.load(open(f)))
-print(int(d['$p'].get('quick_runs',5000)*$factor), d['$p'].get('quick_s',30))")
-  set -- $cap
-  runs=$1; qs=$2
+print(d['$p'].get('quick_s',30))")
+  runsarg=""
+  if [ "$factor" != "1" ] && ! { [ "$tier" = thorough ] && [ "$factor" = 5 ]; }; then
+    runs=$(python3 -c "
+import json,glob
+d=json.load(open('engine/props.json'))
+for f in sorted(glob.glob('engine/props.d/*.json')): d.update(json.load(open(f)))
+print(int(d['$p'].get('quick_runs',5000)*$factor))")
+    runsarg="--runs $runs"
+  fi
   for s in $seeds; do
-    out=$(VERIF_COLLECT=1 VERIF_SEED=$s ./check $p --tier $tier --runs $runs --budget $((qs*8*factor)) --workers $workers 2>&1); rc=$?
-    echo "== $p seed=$s runs=$runs exit=$rc $(echo "$out" | grep '^check ' | cut -c1-120)"
+    # (no --runs for factor 1 / thorough x5: exactly the tier's own ranges, per binary)
+    out=$(VERIF_COLLECT=1 VERIF_SEED=$s ./check $p --tier $tier $runsarg --budget $((qs*8*factor)) --workers $workers 2>&1); rc=$?
+    echo "== $p seed=$s tier=$tier exit=$rc $(echo "$out" | grep '^check ' | cut -c1-120)"
     echo "$out" | grep -E "^VIOLATION|^  clause=|TROUBLE|NOTE:" | cut -c1-400
   done
 done
